@@ -201,6 +201,26 @@ pub fn yield_point(tag: u32) {
     }
 }
 
+/// An environment-only point: the running code keeps the baton; the only
+/// alternative offered is the environment's cancel step.  Used for very
+/// frequent points (per-cell cancellation polls) where offering a job switch
+/// as well would make the schedule space explode.
+pub fn env_point(tag: u32) {
+    if mode() != Mode::Controlled {
+        return;
+    }
+    let mut g = lock(&CTRL);
+    if let Some(c) = g.as_mut() {
+        c.trace.sched_points += 1;
+        if c.cancel_armed() {
+            let k = c.choose(PointKind::Sched, tag, 2, true, Some(1));
+            if k == 1 {
+                c.fire_cancel();
+            }
+        }
+    }
+}
+
 ////////////////////////////////////////////////////////////////////////////////
 
 #[derive(Copy, Clone, PartialEq, Eq, Debug)]
